@@ -1469,11 +1469,12 @@ impl Machine {
                 Instruction::PushStatePos(v) => self.get_current_state().push_pos(v),
                 #[cfg(not(feature = "verif-hooks"))]
                 Instruction::PopStatePos(v) => self.get_current_state().pop_pos(v),
-                Instruction::Delay(dst, src, time) => {
+                Instruction::Delay(dst, src, time, size_idx) => {
                     let i = self.get_stack(src as i64);
                     let t = self.get_stack(time as i64);
-                    let delaysize_i =
-                        unsafe { self.delaysizes_pos_stack.last().unwrap_unchecked() };
+                    // every delay owns an entry of `delay_sizes`; the per-call counter in
+                    // `delaysizes_pos_stack` is never advanced and always selected entry 0
+                    let delaysize_i = &(size_idx as usize);
                     #[cfg(feature = "verif-hooks")]
                     crate::verif::check(
                         *delaysize_i < self.get_fnproto(func_i).delay_sizes.len(),
